@@ -212,6 +212,8 @@ def run(ctx):
     # component order is preserved end to end (formatter, templates, parsers, fold, accessors)
     import maps as _maps
     _maps.rule_O_ORDER(ctx)
+    import tables as _t2
+    _t2.rule_T_IDENT_CLASS(ctx, _t2.Tables(ctx), models=("lex",))
     ctx.undecided = ["structural equality of the re-parsed tree for all vocabulary-consistent values (nesting- and value-dependent)"]
     ctx.assumptions = ["nar_dev_utils join helpers and dictionaries behave as summarised (source hash asserted)"]
     ctx.trusted = ["rustc HIR/MIR", "mirfacts driver", "pinned nar_dev_utils 0.42.3 source", "python rule layer"]
